@@ -630,6 +630,65 @@ def m_int_partial_cmp(I, st, args, dty, site):
     return [(s, some(v)) for s, v in _ordering(I, st, a, b)]
 
 
+def _lex_ordering(I, st, xs, ys):
+    """lexicographic comparison of two tuples of integers: [(state, 0 Less | 1 Equal | 2 Greater)], each state refined by what decided it"""
+    if len(xs) != len(ys) or not all(_intarg(x) and _intarg(y) for x, y in zip(xs, ys)):
+        return None
+    outs = []
+    pending = [st]
+    for x, y in zip(xs, ys):
+        nxt = []
+        for s in pending:
+            for s2, o in _ordering(I, s, x, y):
+                vi = next(iter(o[2]))
+                if vi == 1:
+                    nxt.append(s2)
+                else:
+                    outs.append((s2, vi))
+        pending = nxt
+    outs.extend((s, 1) for s in pending)
+    return outs
+
+
+def _tuple_args(I, st, args):
+    a, b = deref(I, st, args[0]), deref(I, st, args[1])
+    if a is None or b is None or a[0] != 't' or b[0] != 't':
+        return None, None
+    return list(a[1]), list(b[1])
+
+
+@model_if(lambda n: n.startswith('core::tuple::<impl std::cmp::PartialOrd for (') and n.rsplit('::', 1)[1] in ('lt', 'le', 'gt', 'ge', 'partial_cmp'))
+def m_tuple_partial_ord(I, st, args, dty, site):
+    xs, ys = _tuple_args(I, st, args)
+    r = _lex_ordering(I, st, xs, ys) if xs is not None else None
+    if r is None:
+        return None
+    which = site['callee'].rsplit('::', 1)[1]
+    if which == 'partial_cmp':
+        return [(s, some(('e', ORDERING, {vi: ()}))) for s, vi in r]
+    truth = {'lt': {0}, 'le': {0, 1}, 'gt': {2}, 'ge': {1, 2}}[which]
+    return [(s, const_int(1 if vi in truth else 0, 'bool')) for s, vi in r]
+
+
+@model_if(lambda n: n.startswith('core::tuple::<impl std::cmp::Ord for (') and n.endswith('::cmp'))
+def m_tuple_cmp(I, st, args, dty, site):
+    xs, ys = _tuple_args(I, st, args)
+    r = _lex_ordering(I, st, xs, ys) if xs is not None else None
+    if r is None:
+        return None
+    return [(s, ('e', ORDERING, {vi: ()})) for s, vi in r]
+
+
+@model_if(lambda n: n.startswith('core::tuple::<impl std::cmp::PartialEq for (') and n.rsplit('::', 1)[1] in ('eq', 'ne'))
+def m_tuple_eq(I, st, args, dty, site):
+    xs, ys = _tuple_args(I, st, args)
+    r = _lex_ordering(I, st, xs, ys) if xs is not None else None
+    if r is None:
+        return None
+    ne = site['callee'].endswith('::ne')
+    return [(s, const_int(1 if ((vi != 1) == ne) else 0, 'bool')) for s, vi in r]
+
+
 @model('std::cmp::PartialOrd::lt', 'std::cmp::PartialOrd::le', 'std::cmp::PartialOrd::gt', 'std::cmp::PartialOrd::ge')
 def m_partial_ord_default(I, st, args, dty, site):
     tya = site.get('tyargs') or []
@@ -697,6 +756,21 @@ def m_num_from(I, st, args, dty, site):
     a = args[0]
     if not _intarg(a):
         return None
+    if a[2] == 'bool' and a[1] not in D.CONSTVAL and D.get_iv(st, a[1]) == (0, 1):
+        # a truth value used as a number (`i128::from(flag)`): decide the flag here, so that what made it true or false is known on
+        # each path -- exactly as if the code had branched on it
+        t = D.TERM.get(a[1])
+        outs = []
+        for truth in (0, 1):
+            s2 = st.clone()
+            if not D.set_iv(s2, a[1], truth, truth):
+                continue
+            if t is not None and t[0] in D.NEG and isinstance(t[1], int) and isinstance(t[2], int):
+                if not D.refine_cmp(s2, t[0] if truth else D.NEG[t[0]], t[1], t[2]):
+                    continue
+            outs.append((s2, const_int(truth, tyname(dty))))
+        if outs:
+            return outs
     v, okc = I.cast_int(st, a, dty)
     return [(st, v)]
 
@@ -1279,6 +1353,12 @@ def m_iter_adapter(I, st, args, dty, site):
     if by_ref and it is not None and it[0] == 'it' and it[1] == 'chars' and it[3] == 0:
         kind = 'take_while' if site['callee'].endswith('take_while') else 'filter'
         return [(st, ('it', 'sub', it, (kind, clo[1] if clo is not None and clo[0] in ('clo', 'fn') else None)))]      # yields a subsequence (take_while: a prefix) of the chars of it[2]
+    if it is not None and it[0] == 'it' and it[1] == 'unk' and len(it) > 3 and it[3] is not None and not (len(it) > 5 and it[5] is not None and it[5][0] == 'bytes') \
+            and site['callee'].rsplit('::', 1)[1] in ('take_while', 'filter'):
+        return [(st, ('it', 'unk', None, None, None, ('atmost', it[3])))]       # yields at most as many items as the sequence has
+    if by_ref and it is not None and it[0] == 'it' and it[1] == 'unk' and len(it) > 5 and it[5] is not None and it[5][0] == 'bytes':
+        kind = 'take_while' if site['callee'].endswith('take_while') else 'filter'
+        return [(st, ('it', 'sub', ('it', 'bytes', it[5][1], 0), (kind, clo[1] if clo is not None and clo[0] in ('clo', 'fn') else None)))]      # the same over the bytes of the string
     return [(st, ('it', 'unk', None, None))]
 
 
@@ -1307,6 +1387,43 @@ def probe_item(I, st, it, clo):
 def m_iter_search(I, st, args, dty, site):
     ref, clo = args[0], args[1]
     it = deref(I, st, ref)
+    which0 = site['callee'].rsplit('::', 1)[1]
+    if it is not None and it[0] == 'it' and it[1] == 'seq' and len(it[2]) - it[3] <= 12 and which0 in ('all', 'any', 'find', 'position'):
+        # a known short sequence: the closure is evaluated element by element, in order, until it decides
+        elems, byref = it[2][it[3]:], it[4]
+        outs, work, exact = [], [(st.clone(), 0)], True
+        while work and exact:
+            s, i = work.pop()
+            if i == len(elems):
+                outs.append((s, const_int(1 if which0 == 'all' else 0, 'bool') if which0 in ('all', 'any') else none()))
+                continue
+            e = ('r', I.alloc(s, elems[i])) if byref else elems[i]
+            arg = ('r', I.alloc(s, e)) if which0 == 'find' else e
+            for s2, b in I.call_closure(s, clo, [arg], site) or []:
+                if b[0] != 'i':
+                    exact = False
+                    break
+                lo, hi = D.get_iv(s2, b[1])
+                for val in (0, 1):
+                    if lo <= val <= hi:
+                        s3 = s2.clone()
+                        if not D.set_iv(s3, b[1], val, val):
+                            continue
+                        t_ = D.TERM.get(b[1])
+                        if t_ is not None and t_[0] in D.NEG and isinstance(t_[1], int) and isinstance(t_[2], int):
+                            if not D.refine_cmp(s3, t_[0] if val else D.NEG[t_[0]], t_[1], t_[2]):
+                                continue
+                        stop = (which0 == 'all' and val == 0) or (which0 != 'all' and val == 1)
+                        if not stop:
+                            work.append((s3, i + 1))
+                        elif which0 in ('all', 'any'):
+                            outs.append((s3, const_int(0 if which0 == 'all' else 1, 'bool')))
+                        elif which0 == 'find':
+                            outs.append((s3, some(e)))
+                        else:
+                            outs.append((s3, some(const_int(i, 'usize'))))
+        if exact and outs:
+            return outs
     s = st.clone()
     item = probe_item(I, s, it, clo)
     which = site['callee'].rsplit('::', 1)[1]
@@ -1323,6 +1440,12 @@ def m_iter_search(I, st, args, dty, site):
             D.PROV[v[1]] = ('charidx', it[2].ident)
             cc = char_count(I, s3, it[2])
             D.rel_set(s3, v[1], cc, '<')
+        elif it is not None and it[0] == 'it' and it[1] == 'unk' and len(it) > 3 and it[3] is not None:
+            # an iterator over a sequence of known length: a found position is below that length
+            hi = max(D.get_iv(s3, it[3])[1] - 1, 0)
+            v = I.top(s3, ty_of_name('usize'), 'pos', lo=0, hi=hi)
+            if not D.refine_cmp(s3, 'Lt', v[1], it[3]):
+                return [(s2, none())]
         else:
             v = I.top(s3, ty_of_name('usize'), 'pos', lo=0, hi=hi)
         return [(s2, none()), (s3, some(v))]
@@ -1338,7 +1461,7 @@ def m_count(I, st, args, dty, site):
     if it[0] == 'it' and it[1] == 'chars' and it[3] == 0:
         return [(st, ('i', char_count(I, st, it[2]), 'usize'))]
     if it[0] == 'it' and it[1] == 'sub':
-        cc = char_count(I, st, it[2][2])
+        cc = it[2][2].len if it[2][1] == 'bytes' else char_count(I, st, it[2][2])
         v = I.top(st, ty_of_name('usize'), 'count', lo=0, hi=D.get_iv(st, cc)[1])
         D.rel_set(st, v[1], cc, '<=')
         if len(it) > 3 and it[3] is not None:
@@ -1346,6 +1469,14 @@ def m_count(I, st, args, dty, site):
             if not hasattr(I, 'prefix_count'):
                 I.prefix_count = {}
             I.prefix_count[v[1]] = (it[2][2].ident, it[3][1], it[3][0])
+        return [(st, v)]
+    if it[0] == 'it' and it[1] == 'unk' and len(it) > 5 and it[5] is not None and it[5][0] == 'atmost':
+        v = I.top(st, ty_of_name('usize'), 'count', lo=0, hi=D.get_iv(st, it[5][1])[1])
+        D.rel_set(st, v[1], it[5][1], '<=')
+        return [(st, v)]
+    if it[0] == 'it' and it[1] == 'unk' and len(it) > 3 and it[3] is not None:
+        v = I.top(st, ty_of_name('usize'), 'count', lo=0, hi=D.get_iv(st, it[3])[1])
+        D.rel_set(st, v[1], it[3], '<=')
         return [(st, v)]
     return [(st, I.top(st, ty_of_name('usize'), 'count', lo=0, hi=USIZE_MAX))]
 
@@ -1474,6 +1605,9 @@ def m_to_string(I, st, args, dty, site):
             sv.digits = lo >= 0
             sv.tail_digits = True     # everything after the first char is a decimal digit
             I.int_text[sv.ident] = a[1]     # provenance: this text is the decimal form of that value
+            if not hasattr(I, 'int_text_len'):
+                I.int_text_len = {}
+            I.int_text_len.setdefault(a[1], []).append(sv.len)        # ... and these are the lengths of the texts made from that value
         s.objs[oid] = ('String', sv)
     else:
         s.objs[oid] = ('String', I.fresh_str(s, 'to_string'))
@@ -2539,7 +2673,7 @@ def m_str_split(I, st, args, dty, site):
     sv = strv_of(I, st, args[0])
     which = site['callee'].rsplit('::', 1)[1]
     if which == 'bytes':
-        return [(st, ('it', 'unk', ty_of_name('u8'), sv.len if sv is not None else None))]
+        return [(st, ('it', 'unk', ty_of_name('u8'), sv.len if sv is not None else None) + ((None, ('bytes', sv)) if sv is not None else ()))]
     if which == 'char_indices':
         return [(st, ('it', 'unk', {'k': 'tuple', 'elems': [ty_of_name('usize'), {'k': 'char'}]}, sv.len if sv is not None else None))]
     return [(st, ('it', 'strs', sv))]
@@ -2690,5 +2824,24 @@ def m_slice_get(I, st, args, dty, site):
         if D.refine_cmp(s2, 'Ge', idx[1], a[1]['len']):
             outs.append((s2, none()))
         return outs
+    rb = _range_bounds(I, st, idx, a[1]['len']) if idx is not None and idx[0] == 's' else None
+    if rb is not None and _intarg(rb[0]) and _intarg(rb[1]):
+        # slice.get(range): Some exactly when start <= end <= len; the piece has end - start elements
+        start, end = rb
+        outs = []
+        s1 = st.clone()
+        if D.refine_cmp(s1, 'Le', start[1], end[1]) and D.refine_cmp(s1, 'Le', end[1], a[1]['len']):
+            ln = I.binop(s1, 'Sub', end, start, ty_of_name('usize'), None, None)
+            if ln[0] == 'i':
+                piece = dict(I.fresh_slice(s1, a[1].get('elem_ty')), len=ln[1])
+                if a[1].get('ascii'):
+                    piece['ascii'] = True
+                outs.append((s1, some(('slice', piece))))
+        for op, x, y in (('Gt', start[1], end[1]), ('Gt', end[1], a[1]['len'])):
+            s2 = st.clone()
+            if D.refine_cmp(s2, op, x, y):
+                outs.append((s2, none()))
+        if outs:
+            return outs
     s1, s2 = st.clone(), st.clone()
     return [(s1, none()), (s2, some(('slice', I.fresh_slice(s2, a[1].get('elem_ty')))))]
